@@ -115,6 +115,39 @@ def layoutFrom (off : Nat) : List (String × String) → List (String × Nat × 
   | (n, t) :: r => let (l, tot) := layoutFrom (off + sizeOf t) r; ((n, off, t) :: l, tot)
 def layout (fields : List (String × String)) := layoutFrom 0 fields
 
+/-! ### the array expressions of `convert_complex` (vocabulary of Gen/ComplexConvert.lean) -/
+
+def size (shape : List Nat) : Nat := shape.foldr (· * ·) 1
+/-- well-formed array: as many elements as the shape says -/
+def Arr.WF (a : Arr) : Prop := a.elems.length = size a.shape
+
+/-- `value.reshape(1)`: only a one-element array fits -/
+def reshape1 (a : Arr) : Except PyErr Arr :=
+  if a.elems.length = 1 then .ok { a with shape := [1] } else .error .ValueError
+/-- `x[0]`: the first sub-array along axis 0 (a 0-d result is the NumPy scalar) -/
+def index0 (a : Arr) : Except PyErr Arr :=
+  match a.shape with
+  | [] => .error .IndexError
+  | d :: rest => if d = 0 then .error .IndexError else .ok ⟨a.dtype, rest, a.elems.take (size rest)⟩
+
+/-- an array seen through its field dtype: the last axis doubles (re0, im0, re1, im1, …) -/
+structure FArr where
+  field : String
+  shape : List Nat           -- of the complex array it views
+  vals : List Dy
+  deriving DecidableEq, Repr
+/-- `value.view(field_dtype)` -/
+def viewFields (f : String) (a : Arr) : FArr := ⟨f, a.shape, interleave a.elems⟩
+/-- `.astype(field_dtype)` on the field view -/
+def FArr.astype (f : String) (x : FArr) : FArr := ⟨f, x.shape, x.vals.map (fieldConv f)⟩
+/-- `.view(requested_dtype)` back to complex elements -/
+def viewAs (req : DT) (x : FArr) : Arr := ⟨req, x.shape, deinterleave x.vals⟩
+/-- `value.astype(requested_dtype)` between the two float complex dtypes: both parts converted -/
+def astypeArr (req : DT) (a : Arr) : Except PyErr Arr :=
+  match fieldOf req with
+  | some fr => .ok ⟨req, a.shape, a.elems.map fun e => (fieldConv fr e.1, fieldConv fr e.2)⟩
+  | none => .error .TypeError
+
 /-! ### line protocol -/
 
 def normDy (x : Dy) : Dy :=
@@ -138,15 +171,18 @@ def decDT : String → DT
 def decShape (s : String) : Option (List Nat) := if s = "_" then some [] else (s.splitOn "x").mapM fun (t : String) => t.toNat?
 def encShape (l : List Nat) : String := if l = [] then "_" else "x".intercalate (l.map toString)
 
-def handler : List String → Option String
-  | ["cconv", req, src, shape, elems] =>
+/-- decode one conversion request, run `f` (the hand model or the generated `convert_complex`), encode the outcome -/
+def runConv (f : DT → Arr → Except PyErr Arr) (req src shape elems : String) : Option String :=
     match decShape shape, (if elems = "_" then some [] else (elems.splitOn ",").mapM decElem) with
     | some sh, some el =>
-      match convert (decDT req) ⟨decDT src, sh, el⟩ with
+      match f (decDT req) ⟨decDT src, sh, el⟩ with
       | .ok r => some (s!"ok {r.dtype.name} {encShape r.shape} " ++
           (if r.elems = [] then "_" else ",".intercalate (r.elems.map fun e => encDy e.1 ++ ":" ++ encDy e.2)))
       | .error e => some ("err " ++ e.name)
     | _, _ => none
+
+def handler : List String → Option String
+  | ["cconv", req, src, shape, elems] => runConv convert req src shape elems
   | ["clayout"] =>
     let (l, tot) := layout ComplexInt32DType_fields
     some (s!"ok itemsize={tot} " ++ ",".intercalate (l.map fun (n, o, t) => s!"{n}@{o}:{t}"))
